@@ -102,8 +102,11 @@ class Monitor:
             r['trues_since'] += 1
             first = r['first']
             if first is not None:
-                width = first[1] - first[0]
-                if r['trues'] > width + 2:
+                try:
+                    width = first[1] - first[0]
+                except ValueError:      # (-inf, +inf): no a-priori width, R5 is left to the harness horizon
+                    width = None
+                if width is not None and r['trues'] > width + 2:
                     self.violate('R5 livelock', r, f'{r["trues"]} progress reports, initial width {width}')
         else:
             r['false_pending'] = True
